@@ -316,13 +316,37 @@ pub fn decompress(
                     ))),
                 ))
             })? as usize;
+            // LZ4 cannot expand data more than ~255 times, so a larger declared size is
+            // bogus. Refuse it instead of allocating whatever the peer declared (up to 4 GiB).
+            if uncomp_len > comp_body.len().saturating_mul(255).saturating_add(64) {
+                return Err(FrameBodyExtensionsParseError::Lz4DecompressError(Arc::new(
+                    LowLevelDeserializationError::IoError(Arc::new(std::io::Error::new(
+                        std::io::ErrorKind::InvalidData,
+                        "lz4 frame declares a decompressed size impossible for its compressed size",
+                    ))),
+                )));
+            }
             let uncomp_body = lz4_flex::decompress(comp_body, uncomp_len)
                 .map_err(|err| FrameBodyExtensionsParseError::Lz4DecompressError(Arc::new(err)))?;
             Ok(uncomp_body)
         }
-        Compression::Snappy => snap::raw::Decoder::new()
-            .decompress_vec(comp_body)
-            .map_err(|err| FrameBodyExtensionsParseError::SnapDecompressError(Arc::new(err))),
+        Compression::Snappy => {
+            // Snappy cannot expand data more than ~21 times (64 bytes out of a 3-byte copy),
+            // so a much larger declared size is bogus. Refuse it instead of allocating it.
+            let declared_len = snap::raw::decompress_len(comp_body)
+                .map_err(|err| FrameBodyExtensionsParseError::SnapDecompressError(Arc::new(err)))?;
+            if declared_len > comp_body.len().saturating_mul(64).saturating_add(64) {
+                return Err(FrameBodyExtensionsParseError::SnapDecompressError(Arc::new(
+                    LowLevelDeserializationError::IoError(Arc::new(std::io::Error::new(
+                        std::io::ErrorKind::InvalidData,
+                        "snappy frame declares a decompressed size impossible for its compressed size",
+                    ))),
+                )));
+            }
+            snap::raw::Decoder::new()
+                .decompress_vec(comp_body)
+                .map_err(|err| FrameBodyExtensionsParseError::SnapDecompressError(Arc::new(err)))
+        }
     }
 }
 
